@@ -31,6 +31,7 @@ func checkC20(ctx *Ctx, r *Report) {
 	c20Unions(ctx, r)
 	c20SchemaAgreement(ctx, r)
 	c20ErrorDiscipline(ctx, r)
+	c20DispatchReached(ctx, r)
 	cfgNilEntries(ctx, r)
 }
 
@@ -810,4 +811,110 @@ func errorHandled(info *types.Info, parents map[ast.Node]ast.Node, call *ast.Cal
 		return false, "is not bound to a variable"
 	}
 	return false, "is not checked in a recognised way"
+}
+
+// c20DispatchReached: every entry of a decoded list of rules / passes reaches its 'exactly-one-of' dispatch (the As…
+// method of the entry's type): the loaders' loops call it on the loop variable on every iteration — not under a condition,
+// not after a statement that may skip the entry. An entry that is skipped is an entry that is never rejected.
+func c20DispatchReached(ctx *Ctx, r *Report) {
+	p := ctx.Pkg("internal/yaml")
+	if p == nil {
+		r.Undecided("anchor lost: internal/yaml")
+		return
+	}
+	info := p.TypesInfo
+	n := 0
+	for _, file := range p.Syntax {
+		for _, d := range file.Decls {
+			fd, ok := d.(*ast.FuncDecl)
+			if !ok || fd.Body == nil {
+				continue
+			}
+			fobj, _ := info.Defs[fd.Name].(*types.Func)
+			parents := parentMap(fd)
+			ast.Inspect(fd.Body, func(m ast.Node) bool {
+				rs, ok := m.(*ast.RangeStmt)
+				if !ok {
+					return true
+				}
+				v, ok := rs.Value.(*ast.Ident)
+				if !ok {
+					return true
+				}
+				nt := namedOf(info.TypeOf(v))
+				if nt == nil || nt.Obj().Pkg() != p.Types {
+					return true
+				}
+				// the entry type has a dispatch method
+				var disp []*types.Func
+				for i := 0; i < nt.NumMethods(); i++ {
+					if mth := nt.Method(i); strings.HasPrefix(mth.Name(), "As") {
+						disp = append(disp, mth)
+					}
+				}
+				if len(disp) == 0 {
+					return true
+				}
+				n++
+				vo := info.Defs[v]
+				why := "the loop never calls the entry's dispatch method"
+				ast.Inspect(rs.Body, func(q ast.Node) bool {
+					c, ok := q.(*ast.CallExpr)
+					if !ok {
+						return true
+					}
+					sel, ok := c.Fun.(*ast.SelectorExpr)
+					if !ok {
+						return true
+					}
+					if id, ok := ast.Unparen(sel.X).(*ast.Ident); !ok || objOf(info, id) != vo {
+						return true
+					}
+					fn := callee(info, c)
+					isDisp := false
+					for _, dm := range disp {
+						if fn == dm {
+							isDisp = true
+						}
+					}
+					if !isDisp {
+						return true
+					}
+					// conditions inside the loop body only
+					why = ""
+					var child ast.Node = c
+					for a := parents[c]; a != nil && a != ast.Node(rs); child, a = a, parents[a] {
+						switch x := a.(type) {
+						case *ast.IfStmt:
+							if child != ast.Node(x.Init) && child != ast.Node(x.Cond) {
+								why = "the dispatch is called under `if " + exprString(x.Cond) + "`"
+							}
+						case *ast.CaseClause:
+							why = "the dispatch is called in a case of a switch"
+						case *ast.BlockStmt:
+							for _, st := range x.List {
+								if st.Pos() >= child.Pos() {
+									break
+								}
+								if is, ok := st.(*ast.IfStmt); ok {
+									ast.Inspect(is, func(z ast.Node) bool {
+										if b, ok := z.(*ast.BranchStmt); ok && (b.Tok == token.CONTINUE || b.Tok == token.BREAK) {
+											why = "`if " + exprString(is.Cond) + "` may skip the entry before its dispatch"
+										}
+										return true
+									})
+								}
+							}
+						}
+					}
+					return true
+				})
+				r.Check(why == "", "cfgschema/dispatch-reached", fmt.Sprintf("%s loop over %s", ctx.FuncName(fobj), exprString(rs.X)), rs.Pos(), "every entry is handed to its dispatch",
+					fmt.Sprintf("%s: %s — an entry that is skipped is never rejected: an empty or unrecognised entry at that position loads without error", ctx.FuncName(fobj), why))
+				return true
+			})
+		}
+	}
+	r.Count("loader loops over lists of rule / pass entries", n)
+	r.Floor("loader loops over lists of rule / pass entries", 3)
 }
